@@ -6,8 +6,15 @@
 #   <patch> <ID> DETECTED|MISSED|MACHINERY (exit code)
 # Removes the scratch copy afterwards (the shared target dirs under /tmp/cwmt-* are caches only).
 set -u
-BASELINE=0
-if [ "$1" = "--baseline" ]; then BASELINE=1; shift; fi
+BASELINE=0; DEMO=""; DEMOFEAT=""
+while true; do
+  case "$1" in
+    --baseline) BASELINE=1; shift;;
+    --demo) DEMO=$(readlink -f "$2"); shift 2;;
+    --demo-features) DEMOFEAT="--features $2"; shift 2;;
+    *) break;;
+  esac
+done
 PATCH=$(readlink -f "$1"); shift
 NAME=$(basename "$PATCH" .diff)
 export CARGO_NET_OFFLINE=true
@@ -15,7 +22,19 @@ SCR=$(mktemp -d /tmp/cwmt-mut-XXXXXX)
 OUT=$(mktemp -d /tmp/cwmt-out-XXXXXX)
 trap 'rm -rf "$SCR" "$OUT"' EXIT
 git -C /repo archive HEAD | tar -x -C "$SCR"
+if [ -n "$DEMO" ]; then
+  # the demonstration must pass on the unchanged tree ...
+  cp "$DEMO" "$SCR/tests/seed_demo.rs"
+  if ( cd "$SCR" && CARGO_TARGET_DIR=/tmp/cwmt-base-target cargo test --offline $DEMOFEAT --test seed_demo >"$OUT/demo0.log" 2>&1 ); then echo "$NAME demo without change: PASS"; else echo "$NAME demo without change: FAIL (unexpected)"; tail -5 "$OUT/demo0.log"; fi
+  rm "$SCR/tests/seed_demo.rs"
+fi
 if ! patch -s -p1 -d "$SCR" < "$PATCH"; then echo "$NAME PATCH-FAILED"; exit 3; fi
+if [ -n "$DEMO" ]; then
+  # ... and fail with the change
+  cp "$DEMO" "$SCR/tests/seed_demo.rs"
+  if ( cd "$SCR" && CARGO_TARGET_DIR=/tmp/cwmt-base-target cargo test --offline $DEMOFEAT --test seed_demo >"$OUT/demo1.log" 2>&1 ); then echo "$NAME demo with change: PASS (unexpected)"; else echo "$NAME demo with change: FAIL as expected ($(grep -E '^test result' "$OUT/demo1.log" | head -1))"; fi
+  rm "$SCR/tests/seed_demo.rs"
+fi
 if [ $BASELINE = 1 ]; then
   if ( cd "$SCR" && CARGO_TARGET_DIR=/tmp/cwmt-base-target cargo test --workspace --no-fail-fast --offline >"$OUT/base.log" 2>&1 ); then
     echo "$NAME baseline: PASS ($(grep -c '^test .* ok$' "$OUT/base.log") tests ok)"
